@@ -296,3 +296,49 @@ Definition complete (r : resp) : bool :=
 
 Definition kind_uncacheable (k : akind) : bool :=
   match k with KNoStore | KNotFound => true | _ => false end.
+
+(* an answer the proxy stores (200 cacheable) or that refreshes the stale entry (304) *)
+Definition storable_answer (ks : key_state) (k : akind) : bool :=
+  match k, ks with
+  | KCacheable, _ => true
+  | KNotModified, Stale => true
+  | _, _ => false
+  end.
+
+(* hypothesis of the single-fetch theorem, per action: nothing is evicted and the origin only
+   gives storable answers *)
+Definition single_fetch_ok (ks : key_state) (a : action) : bool :=
+  negb (is_evict a) &&
+  match answer_of a with Some k => storable_answer ks k | None => true end.
+
+(* hypothesis of the private-copies theorem, per action *)
+Definition uncacheable_ok (a : action) : bool :=
+  match answer_of a with Some k => kind_uncacheable k | None => true end.
+
+(* the origin completes every body it starts *)
+Definition no_abort (a : action) : bool :=
+  match answer_of a with Some k => kind_complete k | None => true end.
+
+Definition is_304 (a : action) : bool :=
+  match answer_of a with Some KNotModified => true | _ => false end.
+
+(* the origin never cuts a body short, and the entry is not removed while a revalidation
+   of it is possible (no eviction at all, or no 304 at all) *)
+Definition fault_free (tr : list action) : bool :=
+  forallb no_abort tr && (forallb (fun a => negb (is_evict a)) tr || forallb (fun a => negb (is_304 a)) tr).
+
+(* steps of the proxy and of the origin, and client c's own steps: no arrival, no disconnect,
+   no eviction, no step of any other client *)
+Definition step_for (c : client) (a : action) : bool :=
+  match a with
+  | LeaderLookup | OriginAnswer _ | LeaderStore | FlightReturn => true
+  | FollowerReGet c' | FollowerFallback c' _ | Respond c' => c' =? c
+  | _ => false
+  end.
+
+(* the origin answer number a client holds as its private copy *)
+Definition private_nr (p : phase) : option Z :=
+  match p with
+  | Post (PHave (RPrivate _ n)) | Done (RPrivate _ n) => Some n
+  | _ => None
+  end.
